@@ -109,11 +109,11 @@ class EncodeState:
             # only represent "legal" values
             raw_value = bytes(internal_value)
 
-            if 8 * len(raw_value) > bit_length:
+            if 8 * len(raw_value) != bit_length:
                 odxraise(
                     f"The value '{internal_value!r}' cannot be encoded using "
                     f"{bit_length} bits.", EncodeError)
-                raw_value = raw_value[0:bit_length // 8]
+                raw_value = raw_value[0:bit_length // 8].ljust(bit_length // 8, b'\x00')
 
         # ... string types, ...
         elif base_data_type in (DataType.A_UTF8STRING, DataType.A_ASCIISTRING,
@@ -135,11 +135,11 @@ class EncodeState:
             else:
                 raw_value = b""
 
-            if 8 * len(raw_value) > bit_length:
+            if 8 * len(raw_value) != bit_length:
                 odxraise(
                     f"The value '{internal_value!r}' cannot be encoded using "
                     f"{bit_length} bits.", EncodeError)
-                raw_value = raw_value[0:bit_length // 8]
+                raw_value = raw_value[0:bit_length // 8].ljust(bit_length // 8, b'\x00')
 
         # ... signed integers, ...
         elif base_data_type == DataType.A_INT32:
